@@ -1,7 +1,7 @@
 (* C10 - wedge, geometric product, meet.  Pinned theorems only. *)
 From Coq Require Import ZArith List Bool Reals Lra.
 From Flocq Require Import Core BinarySingleNaN.
-Require Import GV.FloatBase GV.FloatLemmas GV.AngleM GV.AngleProofs GV.GeonumM GV.GeonumProofs GV.TraitsM.
+Require Import GV.FloatBase GV.FloatLemmas GV.AngleM GV.AngleProofs GV.GeonumM GV.GeonumProofs GV.TraitsM GV.NewProofs GV.CtorProofs GV.ClosureProofs.
 Open Scope R_scope.
 
 Theorem C10_wedge : forall (L : libm) a b,
@@ -27,3 +27,14 @@ Theorem C10_wedge_blades : forall (L : libm) a b, canonp (rem (ang a)) -> canonp
   (blade (ang a) + blade (ang b) + 1 <= blade (ang (wedge L a b)) <= blade (ang a) + blade (ang b) + 4)%Z.
 Proof. exact wedge_blades. Qed.
 Print Assumptions C10_wedge_blades.
+
+(* identical angles: the wedge vanishes exactly - under the single libm hypothesis sin(+0.0) = +0.0 *)
+Theorem C10_parallel : forall (L : libm) a b, sin_zero_zero L -> fin (rem (ang a)) -> ang b = ang a ->
+  fin (fmul (mag a) (mag b)) -> R_ (mag (wedge L a b)) = 0.
+Proof. exact wedge_parallel. Qed.
+Print Assumptions C10_parallel.
+
+(* the two special-value hypotheses are satisfiable *)
+Theorem C10_special_hyps_inhabited : cos_zero_one trivial_libm /\ sin_zero_zero trivial_libm.
+Proof. exact special_hyps_inhabited. Qed.
+Print Assumptions C10_special_hyps_inhabited.
